@@ -12,11 +12,14 @@ impl Repr {
     /// Find the simplest rational number in the open interval `(lower, upper)`.
     /// See [RBig::simplest_in()] and <https://stackoverflow.com/q/66980340/5960776>.
     pub fn simplest_in(mut lower: Self, mut upper: Self) -> Self {
-        let sign = if lower.numerator.sign() != upper.numerator.sign() {
+        // an end point at zero is not inside the open interval, the sign is given by the other end
+        let sign = if lower.numerator.is_zero() {
+            upper.numerator.sign()
+        } else if upper.numerator.is_zero() || lower.numerator.sign() == upper.numerator.sign() {
+            lower.numerator.sign()
+        } else {
             // if lower < 0 < upper, then 0 is the simplest
             return Self::zero();
-        } else {
-            lower.numerator.sign()
         };
         lower = lower.abs();
         upper = upper.abs();
